@@ -164,6 +164,11 @@ def pairsFlow (cfg : Cfg) (tokens : List (Nat × Nat)) (f : Kind → Nat → Nat
     | some k => .ok (acc ++ f k t.1 t.2)
     | none => .error .disabled) []
 
+/-- a denomination of the group that exists (base, or an alias of a bridged chain) -/
+def okDen (cfg : Cfg) (g : Nat) : Den → Bool
+  | .base => true
+  | .chain c => decide (c < nChains) && cfg.onChain g c
+
 def refundCall (cfg : Cfg) (s : State) (c : Nat) (call : OutCall) (cs' : ChainSt) : Except Err State := do
   let fl1 ← tokensFlow cfg c call.tokens (fun k g n => bridgeCallRefundCoin k g c (U call.refund) n)
   let fl2 ← if call.fromMsg then pure [] else refundToEvmFlow cfg call.refund call.tokens
@@ -238,7 +243,7 @@ def stepCore (cfg : Cfg) (s : State) : Op → Except Err State
     pure (finish s c { cs with
       pool := older.flatMap (·.txs) ++ cs.pool,
       batches := cs.batches.filter (fun b => !(b.g == g && decide (b.nonce ≤ nonce))) }
-      [] (exec.map (fun b => (g, batchValue b))))
+      [] (exec.flatMap (fun b => b.txs.map (fun t => (t.g, t.amount + t.fee)))))
   | .btimeout c g nonce => do
     let cs := s.chains c
     let sel := cs.batches.filter (fun b => b.g == g && b.nonce == nonce)
@@ -286,8 +291,7 @@ def stepCore (cfg : Cfg) (s : State) : Op → Except Err State
   | .convertDenom g u r n src dst => do
     let some k := cfg.kind g | .error .notFound
     if k = .fx ∨ src = dst then .error .invalid else
-    let okDen : Den → Bool := fun d => match d with | .base => true | .chain c => decide (c < nChains) && cfg.onChain g c
-    if !(okDen src && okDen dst) then .error .notFound else
+    if !(okDen cfg g src && okDen cfg g dst) then .error .notFound else
     let fl := convertDenom k g (U u) n src dst ++
       (if u = r then [] else [.send (dst.asset g) (U u) E n, .send (dst.asset g) E (U r) n])
     run s fl
